@@ -160,7 +160,24 @@ func runCollector(r *rand.Rand, n int, outDir string, sum *emit.Summary) (terms 
 		}
 		col := collector.NewResourceStatusCollector(set)
 		ch := make(chan event.Event)
-		done := col.Listen(ch)
+		// every other history is consumed through an observer (how cmd/status follows the collector):
+		// it must be told about every event, after the event has been taken into the collector
+		var done <-chan collector.ListenerResult
+		notified, early := 0, 0
+		if c%2 == 0 {
+			done = col.Listen(ch)
+		} else {
+			done = col.ListenWithObserver(ch, collector.ObserverFunc(func(rsc *collector.ResourceStatusCollector, e event.Event) {
+				notified++
+				// observations are taken while the history goes on, not only at its end
+				if o := rsc.LatestObservation(); o.LastEventType != e.Type {
+					early++
+				}
+				if rsc.LastEventType != e.Type || (e.Type == event.ResourceUpdateEvent && rsc.ResourceStatuses[e.Resource.Identifier] != e.Resource) {
+					early++
+				}
+			}))
+		}
 		var results []merr
 		var wg sync.WaitGroup
 		wg.Add(1)
@@ -191,11 +208,31 @@ func runCollector(r *rand.Rand, n int, outDir string, sum *emit.Summary) (terms 
 			}
 			sum.Count("collector:event=" + etypes[e.kind])
 		}
-		close(ch)
-		wg.Wait()
-		if hang {
-			sum.ImplFailures = append(sum.ImplFailures, "collector did not accept an event within 5s")
+		if hang { // the collector goroutine is stuck: do not wait for it
+			sum.ImplFailures = append(sum.ImplFailures, fmt.Sprintf("collector did not accept an event within 5s (ids=%v, %d events, observer=%v)", ids, len(es), c%2 == 1))
+			if len(sum.ImplFailures) > 3 {
+				break
+			}
 			continue
+		}
+		close(ch)
+		finished := make(chan struct{})
+		go func() { wg.Wait(); close(finished) }()
+		stuck := false
+		select {
+		case <-finished:
+		case <-time.After(5 * time.Second): // the collector took the last event and never came back
+			stuck = true
+		}
+		if stuck {
+			sum.ImplFailures = append(sum.ImplFailures, fmt.Sprintf("collector did not finish within 5s after its event channel was closed (ids=%v, %d events, observer=%v)", ids, len(es), c%2 == 1))
+			if len(sum.ImplFailures) > 3 {
+				break
+			}
+			continue
+		}
+		if c%2 == 1 && (notified != len(es) || early != 0) {
+			sum.ImplFailures = append(sum.ImplFailures, fmt.Sprintf("collector observer: %d events, %d notifications, %d of them before the event was recorded (ids=%v)", len(es), notified, early, ids))
 		}
 		obs := col.LatestObservation()
 		var sts, est, rst []string
